@@ -14,4 +14,7 @@ mod sax {
     pub assume_specification<T, I: core::slice::SliceIndex<[T]>>[ <[T]>::get_unchecked_mut::<I> ](s: &mut [T], i: I) -> (r: &mut <I as core::slice::SliceIndex<[T]>>::Output)
         requires ix_ok::<T, I>(old(s), i),
         ensures ix_upd::<T, I>(old(s), final(s), i, r, final(r));
+    // <[T]>::to_vec: a vector with the same elements (Clone of the element types used here -- usize, char -- is the identity)
+    pub assume_specification<T: Clone>[ <[T]>::to_vec ](s: &[T]) -> (r: Vec<T>)
+        ensures r@ == s@;
 }
